@@ -44,8 +44,8 @@ fn main() {
         }
         i += 1;
     }
-    // the tier named on the command line is the default; VERIF_TIER overrides it
-    if tier.is_none() { tier = explicit_tier; }
+    // the tier named on the command line (quick_cmd / thorough_cmd) wins; VERIF_TIER is the default otherwise
+    if explicit_tier.is_some() { tier = explicit_tier; }
     let tier = tier.unwrap_or_else(|| "quick".to_string());
     if tier != "quick" && tier != "thorough" { usage(); }
     let prop = match prop { Some(p) => p, None => usage() };
